@@ -19,7 +19,24 @@ def scenarios(rng, n, tier):
     for _ in range(n):
         opts = {"calls": [0, 0, 0, 5], "p_skip": 0.0, "p_nodelay": 0.25, "p_stop": 0.1,
                 "p_limit": 0.2, "max_jobs": 3, "p_maxexec": 0.15, "p_force": 0.15, "p_start": 0.6, "max_polls": 8}
-        yield scen.gen_life(rng, opts)
+        scn = scen.gen_life(rng, opts)
+        for o in scn["ops"]:
+            if o["op"] == "sch" and o["call"] == 5 and o["timings"][0][0] in ("t", "w") and rng.random() < 0.4:
+                # the requested time of day sits on / a hair after / just under a second after the creation instant, on the creation
+                # day's own weekday (read in the timing's offset): "the next such occurrence" is today, not in a day / a week
+                t = o["timings"][0]
+                off = t[-1] or 0
+                local = o["clock"] + off
+                tgt = local + rng.choice([1, 400_000, 999_999, 1_000_000, 0, -1, 59_999_999])
+                tod = tgt % core.DAY
+                h, rem = divmod(tod, 3_600_000_000)
+                m, rem = divmod(rem, 60_000_000)
+                sec, us = divmod(rem, 1_000_000)
+                if t[0] == "t":
+                    o["timings"] = [["t", h, m, sec, us, t[-1]]]
+                else:
+                    o["timings"] = [["w", (tgt // core.DAY) % 7, h, m, sec, us, t[-1]]]
+        yield scn
 
 
 def specs(r):
